@@ -128,7 +128,7 @@ key_last_period!(c12_t_key_last_period_3, Sum3Kes, 3);
 key_last_period!(c12_t_key_last_period_4, Sum4Kes, 4);
 key_last_period!(c12_t_key_last_period_5, Sum5Kes, 5);
 key_last_period!(c12_t_key_last_period_6, Sum6Kes, 6);
-key_last_period!(c12_t_key_last_period_7, Sum7Kes, 7);
+key_last_period!(c12_x_key_last_period_7, Sum7Kes, 7);
 
 macro_rules! key_period_and_len {
     ($name:ident, $sk:ident, $depth:expr) => {
